@@ -484,6 +484,40 @@ func runC20(c *Check, w *World) {
 			})
 		}
 	}
+	// ---- R20.6 number coercion ------------------------------------------------------------------------------
+	// JavaScript numbers become Go integers through js.Value.Int() only (truncation toward zero, what the
+	// contract documents); reading the float and converting it by hand rounds or saturates differently
+	nInt := 0
+	for _, g := range w.ModuleFuncs(WasmPath) {
+		EachInstr(g, func(in ssa.Instruction) {
+			ci, ok := in.(ssa.CallInstruction)
+			if !ok {
+				return
+			}
+			switch CalleeName(ci.Common()) {
+			case "(syscall/js.Value).Int":
+				nInt++
+				v := ci.Value()
+				direct := true
+				if v != nil && v.Referrers() != nil {
+					for _, r := range *v.Referrers() {
+						if bo, isB := r.(*ssa.BinOp); isB {
+							switch bo.Op {
+							case token.ADD, token.SUB, token.MUL, token.QUO, token.REM, token.SHL, token.SHR, token.AND, token.OR, token.XOR:
+								direct = false
+							}
+						}
+					}
+				}
+				c.Decide(direct, "R20.6", FuncName(g), "js-number:Int", "the JavaScript number is truncated toward zero by js.Value.Int() and used as it is", "the truncated JavaScript number is adjusted arithmetically before use", w.InstrPos(in))
+			case "(syscall/js.Value).Float":
+				c.Bad("R20.6", FuncName(g), "js-number:Float", "a JavaScript number is read as a float and converted by hand: fractional arguments are no longer truncated toward zero as documented (rounding moves 1.5 to 2)", w.InstrPos(in))
+			}
+		})
+	}
+	if nInt == 0 {
+		c.Unk("R20.6", "wasm", "js-number:Int", "no js.Value.Int() conversion found in the binding", "")
+	}
 	ruleNoPkgState(c, w, tb, ef, "R20.H", append(w.ModuleFuncs(WasmPath), der, vw))
 	c.Floor("R20.1", 10)
 	c.Floor("R20.3.validateHOTP.2", 1)
@@ -585,7 +619,7 @@ func init() {
 		explain: "Sibling cross-check of two implementations of one interface, in the js/wasm configuration (source only; the checked-in otp.wasm binary and wasm_exec.js are not analysed): R20.1 the names registered with js.Global().Set(name, js.FuncOf(f)) equal the keys of the object that index.js resolves (comment/string-aware tokenizer), each key bound to globalThis.<same key>; " +
 			"R20.2 the binding's derivation satisfies the same RFC 4226 composition rules as the native one (hash chosen by a switch selecting sha1/sha256/sha512.New for SHA1/SHA256/SHA512, key unchanged, one big-endian PutUint64 of the counter, the same dynamic-truncation function, digits gate 1..10, modulus = native table entry for 1..9 and a verified full-width 10^n loop otherwise — both ≥ 2^31 for 10 digits, hence equal behaviour), rendered as FormatUint(…,10) left-padded with '0' to the digits; " +
 			"R20.3 both binding window loops satisfy the native window rules (skew exactly 0..10 at the loop, i=-s..+s, the step counter depends on i, negative steps skipped, acceptance only under the step verdict) and the js/wasm validator has the native comparison core; R20.4 arguments reach their roles by the name given to the argument parser, and the TOTP period is positive at the division; " +
-			"R20.5 every string returned to JavaScript is either prefixed \"error:\" or the operation's value. Not decided: syscall/js number coercion, the Node/wasm runtime.",
+			"R20.5 every string returned to JavaScript is either prefixed \"error:\" or the operation's value; R20.6 JavaScript numbers become integers through js.Value.Int() only (truncation), never through a hand conversion of Float(). Not decided: syscall/js itself, the Node/wasm runtime.",
 		trusted:  []string{"syscall/js", "the build of otp-js/lib/otp.wasm from these sources"},
 		quick:    []Config{CfgWasm},
 		thorough: []Config{CfgWasm},
